@@ -139,7 +139,11 @@ def div(op, input, other):
     if not is_scalar(other) or not isinstance(input, QBytesTensor):
         return qfallback(op, input, other)
     # We just divide the scale
-    return QBytesTensor(input.qtype, input.axis, input.size(), input.stride(), input._data, op(input._scale, other))
+    out_scale = op(input._scale, other)
+    if input.ndim > 0:
+        # A scalar (even a 0-dim Tensor of another dtype) never changes the dtype of a Tensor with dimensions
+        out_scale = out_scale.to(input._scale.dtype)
+    return QBytesTensor(input.qtype, input.axis, input.size(), input.stride(), input._data, out_scale)
 
 
 @register_qbytestensor_op([torch.ops.aten.neg])
@@ -230,9 +234,13 @@ def mm(op, input, other):
 def mul(op, input, other):
     # If one of the multiplicands is a scalar, just multiply the scale
     if is_scalar(input):
-        return QBytesTensor(other.qtype, other.axis, other.size(), other.stride(), other._data, input * other._scale)
-    if is_scalar(other):
-        return QBytesTensor(input.qtype, input.axis, input.size(), input.stride(), input._data, other * input._scale)
+        input, other = other, input
+    if is_scalar(other) and isinstance(input, QBytesTensor):
+        out_scale = other * input._scale
+        if input.ndim > 0:
+            # A scalar (even a 0-dim Tensor of another dtype) never changes the dtype of a Tensor with dimensions
+            out_scale = out_scale.to(input._scale.dtype)
+        return QBytesTensor(input.qtype, input.axis, input.size(), input.stride(), input._data, out_scale)
     return qfallback(op, input, other)
 
 
